@@ -73,6 +73,10 @@ func c08v2(g *Gen) {
 				names = append(names, g.Pick(c08Keys))
 			}
 			cls = append(cls, "tagnames")
+		} else if g.Chance(0.4) {
+			// "nil or empty": an empty, non-nil list of names selects every tag too
+			names = make([]string, 0, 2)
+			cls = append(cls, "tagnames-empty-not-nil")
 		}
 		c08fnCase(g, marker, names, lines, cls)
 		if i%3 == 0 {
